@@ -223,7 +223,9 @@ class TemplateLoader(object):
                     loadfunc = directory(loadfunc)
                 try:
                     filepath, filename, fileobj, uptodate = loadfunc(filename)
-                except IOError:
+                except (IOError, TemplateNotFound):
+                    # this item does not have the template (`prefixed()` says
+                    # so with TemplateNotFound): try the next one
                     continue
                 else:
                     try:
